@@ -140,6 +140,92 @@ theorem advanceAll_ledger (b : AbiBuffer) (hl : b.kind = .lists) (hc : b.cursor 
       rw [h4, List.sum_cons, List.drop_drop, List.drop_drop]
       congr 1; omega
 
+/-- ids in value-destructor events of channel `c` -/
+def vdId (c : Nat) : Ev → Option Nat
+  | .ch .vd [c', id] => if c' = c then some id else none
+  | _ => none
+
+def vdIds (c : Nat) (evs : List Ev) : List Nat := evs.filterMap (vdId c)
+
+theorem vdIds_append (c : Nat) (a b : List Ev) : vdIds c (a ++ b) = vdIds c a ++ vdIds c b := by
+  simp [vdIds, List.filterMap_append]
+
+theorem vdIds_map_vd (c : Nat) (l : List Nat) : vdIds c (l.map (evVd c)) = l := by
+  induction l with
+  | nil => rfl
+  | cons x xs ih => simp only [vdIds] at ih ⊢; simp [evVd, vdId, ih]
+
+theorem vdIds_map_dli (c : Nat) (l : List Nat) : vdIds c (l.map (evDli c)) = [] := by
+  induction l with
+  | nil => rfl
+  | cons x xs ih => simp only [vdIds] at ih ⊢; simp [evDli, vdId]
+
+theorem vdIds_map_li (c : Nat) (l : List Nat) : vdIds c (l.map (evLi c)) = [] := by
+  induction l with
+  | nil => rfl
+  | cons x xs ih => simp only [vdIds] at ih ⊢; simp [evLi, vdId]
+
+theorem liIds_map_vd (c : Nat) (l : List Nat) : liIds c (l.map (evVd c)) = [] := by
+  induction l with
+  | nil => rfl
+  | cons x xs ih => simp only [liIds] at ih ⊢; simp [evVd, liId]
+
+theorem dliIds_map_vd (c : Nat) (l : List Nat) : dliIds c (l.map (evVd c)) = [] := by
+  induction l with
+  | nil => rfl
+  | cons x xs ih => simp only [dliIds] at ih ⊢; simp [evVd, dliId]
+
+theorem takeVec_vdIds (b : AbiBuffer) : vdIds b.c b.takeVec.2.2 = [] := by
+  by_cases hs : b.slab <;> by_cases hl : b.kind.lowers <;>
+    simp [AbiBuffer.takeVec, hl, vdIds_append, vdIds_map_li, hs] <;> simp [vdIds, vdId]
+
+theorem advanceAll_kind (ks : List Nat) : ∀ (b b' : AbiBuffer) (evs : List Ev), advanceAll b ks = .ok b' evs →
+    b'.kind = b.kind ∧ vdIds b.c evs = [] := by
+  induction ks with
+  | nil => intro b b' evs h; simp only [advanceAll] at h; cases h; exact ⟨rfl, rfl⟩
+  | cons k ks ih =>
+    intro b b' evs h
+    simp only [advanceAll, AbiBuffer.advance] at h
+    split at h
+    · simp [Step.bind] at h
+    · split at h
+      · simp only [Step.bind] at h
+        cases hr : advanceAll { b with cursor := b.cursor + k } ks with
+        | panic m e => rw [hr] at h; simp at h
+        | ok b2 e2 =>
+          rw [hr] at h; simp only [List.nil_append] at h; cases h
+          have := ih _ _ _ hr
+          exact this
+      · simp only [Step.bind] at h
+        cases hr : advanceAll { b with cursor := b.cursor + k } ks with
+        | panic m e => rw [hr] at h; simp at h
+        | ok b2 e2 =>
+          rw [hr] at h; cases h
+          have := ih _ _ _ hr
+          exact ⟨this.1, by rw [vdIds_append, vdIds_map_dli]; exact this.2⟩
+
+/-- ledger of a buffer that is DROPPED after the host took `ks` (see `Props/C19.lean`
+`untransferred_returned_or_dropped_once`) -/
+theorem advanceAll_drop_ledger (b : AbiBuffer) (hl : b.kind = .lists) (hc : b.cursor ≤ b.items.length) (ks : List Nat)
+    (hk : ks.sum ≤ b.remaining) :
+    ∃ b' evs, advanceAll b ks = .ok b' evs ∧
+      dliIds b.c evs ++ liIds b.c b'.dropEvs = b.window ∧
+      liIds b.c b'.dropEvs = b.window.drop ks.sum ∧
+      vdIds b.c b'.dropEvs = b.window.drop ks.sum ∧
+      dliIds b.c b'.dropEvs = [] ∧ liIds b.c evs = [] ∧ vdIds b.c evs = [] := by
+  obtain ⟨b', evs, hrun, h1, h2, h3, h4, _, h6⟩ := advanceAll_ledger b hl hc ks hk
+  obtain ⟨hkind, hvd⟩ := advanceAll_kind ks b b' evs hrun
+  have hlow : b'.kind.lowers = true := by rw [hkind, hl]; rfl
+  have hdrop : b'.dropEvs = b'.takeVec.2.2 ++ b'.window.map (evVd b.c) := by
+    simp [AbiBuffer.dropEvs, AbiBuffer.takeVec, valDrops, hlow, h6]
+  have hw : b'.window = b.window.drop ks.sum := by rw [← h4]; rfl
+  have hli : liIds b.c b'.takeVec.2.2 = b'.window := by rw [← h6]; exact takeVec_liIds b' hlow
+  refine ⟨b', evs, hrun, ?_, ?_, ?_, ?_, h2, hvd⟩
+  · rw [hdrop, liIds_append, liIds_map_vd, List.append_nil]; exact h1
+  · rw [hdrop, liIds_append, liIds_map_vd, List.append_nil, hli, hw]
+  · rw [hdrop, vdIds_append, vdIds_map_vd, ← h6, takeVec_vdIds, List.nil_append, hw]
+  · rw [hdrop, dliIds_append, dliIds_map_vd, List.append_nil]; exact h3
+
 /-! ## Event prefixes of steps -/
 
 theorem Step.bind_evs_prefix {α β : Type} (x : Step α) (f : α → Step β) : ∃ rest, (x.bind f).evs = x.evs ++ rest := by
@@ -221,6 +307,55 @@ theorem write_all_progress (g : GChan) (e : Env) (one first : Bool) (st : WSt) (
     have : (if (!first && SRes.complete k == SRes.cancelled) = true then SRes.complete 0 else SRes.complete k) = SRes.complete k := by
       simp
     simp [this, hrem, hr, hrem2]
+
+/-- `write_all` / `write_one` driven to its end by a host that answers every write at once with
+COMPLETED|`f st` (`f` = the host's choice, a function of the state of the write): the number of polls of
+writes it takes; `none` = the fuel ran out (or a panic) -/
+def allRun (e : Env) (one : Bool) (f : WSt → Nat) : Nat → GChan → Bool → WSt → Option (GChan × Nat)
+  | 0, _, _, _ => none
+  | fuel + 1, g, first, st =>
+    match g.pollAll e one first (WOp.new st) (Host.packCode Host.COMPLETED (f st)) with
+    | .panic _ _ => none
+    | .ok (g', _) _ =>
+      if g'.running then
+        match g'.act with
+        | .sall _ (.awaiting _ w) =>
+          match w.state with
+          | .start st' => (allRun e one f fuel g' false st').map fun r => (r.1, r.2 + 1)
+          | _ => none
+        | _ => none
+      else some (g', 1)
+
+/-- **`write_all` terminates when the host makes progress**: whatever counts the host picks (`f`), as long
+as each is legal and progresses (`1 ≤ f st ≤ remaining`), `write_all` / `write_one` ends after at most
+`remaining` writes, with the future gone (`act = idle`, not `running`).  Induction on the fuel with the
+measure `remaining` (each step: `write_all_progress`). -/
+theorem allRun_terminates (e : Env) (one : Bool) (f : WSt → Nat)
+    (hf : ∀ st : WSt, 1 ≤ st.buf.remaining → 1 ≤ f st ∧ f st ≤ st.buf.remaining ∧ f st ≤ 268435455) :
+    ∀ (fuel : Nat) (g : GChan) (first : Bool) (st : WSt), st.wr.done = false → st.buf.cursor ≤ st.buf.items.length →
+      1 ≤ st.buf.remaining → st.buf.remaining ≤ fuel →
+      ∃ g' n, allRun e one f fuel g first st = some (g', n) ∧ g'.running = false ∧ g'.act = .idle ∧ n ≤ st.buf.remaining := by
+  intro fuel
+  induction fuel with
+  | zero => intro g first st _ _ h1 h2; omega
+  | succ fuel ih =>
+    intro g first st hd hc h1 h2
+    obtain ⟨hk1, hk, hk2⟩ := hf st h1
+    obtain ⟨g', evs, hp, hres⟩ := write_all_progress g e one first st (f st) hd hk1 hk hk2 hc
+    by_cases hr : st.buf.remaining = f st
+    · simp only [hr, if_true] at hres
+      refine ⟨g', 1, ?_, hres.1, hres.2, by omega⟩
+      simp [allRun, hp, hres.1]
+    · simp only [hr, if_false] at hres
+      obtain ⟨hrun, hact, hrem⟩ := hres
+      generalize hb' : ({ st.buf with cursor := st.buf.cursor + f st } : AbiBuffer) = b' at hact hrem
+      have hc' : b'.cursor ≤ b'.items.length := by
+        subst hb'; simp only [AbiBuffer.remaining] at hk ⊢; omega
+      obtain ⟨g'', n, hrun', hr1, hr2, hn⟩ := ih g' false ⟨b', st.wr⟩ hd hc' (by simp only []; omega) (by simp only []; omega)
+      simp only [] at hn
+      refine ⟨g'', n + 1, ?_, hr1, hr2, by omega⟩
+      simp only [allRun, hp]
+      simp [hrun, hact, WOp.new, hrun']
 
 /-- **The untransferred tail is returned, not dropped**: when `write_all` ends — everything was taken,
 or the peer dropped — the vector it hands back is exactly the window of the buffer at that point (the
